@@ -102,7 +102,7 @@ class AppSystem(object):
                                  app_timeout=cfg.s["app_timeout"], events=self.events)
         self.server.answer_mode = cfg.answer
         self.server.resp_kind = cfg.resp_kind
-        if cfg.peerinfo:
+        if cfg.peerinfo in (True, "record"):
             prime_cache(self.client, _info_for(cfg.s, 2, Address(self.SERVER_MAC)))
             prime_cache(self.server, _info_for(cfg.c, 1, Address(self.CLIENT_MAC)))
         self._hook_records()
@@ -123,8 +123,30 @@ class AppSystem(object):
         client._record_confirmation = rec
 
     # ---- driving
+    def announce(self):
+        """Both devices broadcast an I-Am; the applications hand it to their DeviceInfoCache as the samples do."""
+        from bacpypes.apdu import IAmRequest
+        from bacpypes.pdu import LocalBroadcast
+        for app, sd in ((self.server, self.cfg.s), (self.client, self.cfg.c)):
+            iam = IAmRequest(iAmDeviceIdentifier=app.localDevice.objectIdentifier, maxAPDULengthAccepted=sd["maxapdu"],
+                             segmentationSupported=sd["seg"], vendorID=999)
+            iam.pduDestination = LocalBroadcast()
+            try:
+                if self.cfg.via == "iocb" and app is self.client:
+                    from bacpypes.app import Application
+                    Application.request(app, iam)
+                else:
+                    app.request(iam)
+            except Exception as err:
+                self.errors.append("iam:%s:%s" % (type(err).__name__, str(err)[:100]))
+            vclock.settle()
+            self.wire.flush()
+        self.announced = True
+
     def start(self):
         vclock.settle()
+        if self.cfg.peerinfo == "iam":
+            self.announce()
         for k, (req_len, resp_len) in enumerate(self.cfg.reqs):
             sn = k + 1
             self.server.resp_len_by_sn[sn] = resp_len
